@@ -431,6 +431,31 @@ def mode_inert(req_cases):
         elif ev.startswith(("os.", "subprocess.", "socket.", "ctypes.", "shutil.", "tempfile.", "pty.", "webbrowser.")) and ev not in ("os.listdir", "os.scandir", "os.putenv"):
             hook_events.append([ev, str(args)[:80]])
     sys.addaudithook(hook)
+    # dynamic call edges between functions of skops.io, to validate the static call graph (harness/callgraph.py):
+    # every edge observed here must be an edge of the translated graph
+    io_dir = os.path.join(os.path.dirname(os.path.abspath(sio.__file__)), "")
+    dyn_edges = set()
+
+    def key_of(code):
+        fn = code.co_filename
+        if not fn.startswith(io_dir):
+            return None
+        return fn[len(io_dir):-3].replace(os.sep, ".") + "." + code.co_qualname.split(".<locals>")[0]
+
+    def prof(frame, event, arg):
+        if event != "call":
+            return
+        code = frame.f_code
+        if code.co_flags & 0x20:        # generator: 'call' also fires on every resumption, attributed to the resumer
+            return
+        k = key_of(code)
+        if k is None:
+            return
+        b = frame.f_back
+        while b is not None and key_of(b.f_code) is None:
+            b = b.f_back
+        if b is not None:
+            dyn_edges.add((key_of(b.f_code), k))
     out = []
     import tempfile
     for case in cases:
@@ -448,11 +473,14 @@ def mode_inert(req_cases):
             state["on"] = True
             try:
                 with tr.tracing():
+                    sys.setprofile(prof)
                     try:
                         fn()
                         res = "ok"
                     except BaseException as e:  # noqa
                         res = "err:" + (exc_enum(e) if isinstance(e, Exception) else "BASEEXC")
+                    finally:
+                        sys.setprofile(None)
             finally:
                 state["on"] = False
             new_mods = sorted(m for m in set(sys.modules) - before if m.startswith(("verif_cm_", "verif_canary")))
@@ -478,6 +506,7 @@ def mode_inert(req_cases):
         except OSError:
             pass
         out.append(rec)
+    out.append({"dyn_edges": sorted(list(e) for e in dyn_edges)})
     return out
 
 
